@@ -112,6 +112,29 @@ impl Prop for C02Prop {
         let mut l = LinkScn::new("C02", "corrupting-link", fe, buf);
         l.segs = segs;
         l.extra_polls = rng.below(3);
+        // the application and the source misbehave too: soundness must not depend on them
+        let len = build_stream(&l.segs).stream.len();
+        match fe {
+            Fe::Push if rng.chance(1, 3) => {
+                let k = rng.range(1, 4);
+                l.ops = gen::gen_push_ops(rng, len, k);
+                l.sub = "corrupting-link+api-calls".into();
+            }
+            Fe::RdIo if rng.chance(1, 3) => {
+                let k = rng.range(1, 5);
+                l.src = gen::gen_src_faults(rng, len, k, &[crate::fe::SrcFault::WouldBlock, crate::fe::SrcFault::Interrupted, crate::fe::SrcFault::Other(0), crate::fe::SrcFault::Eof(0)]);
+                l.sub = "corrupting-link+source-faults".into();
+            }
+            Fe::RdEh if rng.chance(1, 3) => {
+                let k = rng.range(1, 5);
+                l.src = gen::gen_src_faults(rng, len, k, &[crate::fe::SrcFault::WouldBlock, crate::fe::SrcFault::Other(0)]);
+                l.sub = "corrupting-link+source-faults".into();
+            }
+            _ => {}
+        }
+        if buf == BufKind::Vec && matches!(fe, Fe::Push) && rng.chance(1, 4) {
+            l.alloc_fail = rng.range(1, 10) as u64;
+        }
         Scenario::Link(l)
     }
 
@@ -122,7 +145,7 @@ impl Prop for C02Prop {
         let stream = &built.stream;
         st.bump("cfg.fe", l.fe.name());
         let obs = match l.fe {
-            Fe::Push => fe::drive_push_kind(l.buf, stream, &l.ops, 0, true),
+            Fe::Push => fe::drive_push_kind(l.buf, stream, &l.ops, l.alloc_fail, true),
             Fe::Decode => fe::drive_decode(stream),
             Fe::Streaming => fe::drive_streaming_kind(l.buf, stream, l.extra_polls),
             _ => {
@@ -191,7 +214,7 @@ impl Prop for C02Prop {
                 _ => {}
             }
         }
-        let any_fault = !built.fired.is_empty();
+        let any_fault = !built.fired.is_empty() || !l.ops.is_empty() || !l.src.is_empty();
         let byz = l.segs.iter().any(|s| matches!(s, Seg::Raw(_) | Seg::Cut { .. }));
         if any_fault && obs.iter().any(|o| matches!(o.item, Item::Msg(_))) {
             st.bump("probe", "delivered-next-to-fault");
